@@ -218,9 +218,15 @@ where
     }
     // Newton iterations
     let mut l = (operand / D::from_num(2)) + D::from_num(1);
-    for _i in 0..D::frac_nbits() {
+    // starting from x/2 + 1 the iterate first halves once per step, which takes
+    // about half the integer bits, before it converges quadratically
+    for _i in 0..(D::int_nbits() + D::frac_nbits()) {
         tick(0);
-        l = (l + operand / l) / D::from_num(2);
+        let next = (l + operand / l) / D::from_num(2);
+        if next == l {
+            break;
+        }
+        l = next;
     }
     if invert {
         l = if let Some(r) = D::from_num(1).checked_div(l) {
